@@ -147,7 +147,7 @@ def main(argv):
                 violations.append((verdict["bucket"], rp, "fixed finding returned: " + verdict["message"]))
 
     # 2. workers
-    hs = hashseeds(tier, seed, nworkers if tier == "thorough" else max(4, nworkers // 2))
+    hs = hashseeds(tier, seed, nworkers)  # every worker its own hash order
     procs = []
     for w in range(nworkers):
         h = hs[w % len(hs)]
